@@ -198,6 +198,21 @@ def families(tier, seed):
     return fams
 
 
+def _twin_segment_accepts_point_pair():
+    import copy as _copy
+
+    def init(self, a, b):
+        a, b = _copy.deepcopy(a), _copy.deepcopy(b)
+        if isinstance(b, Vector):
+            b = Point(a.pv() + b)
+        self.line = None
+        self.start_point, self.end_point = a, b
+    Segment.__init__ = init
+
+
+TWINS = {'Segment accepts coincident end points': (r'^coincident/Segment\(P,P\)/axis$', _twin_segment_accepts_point_pair)}
+
+
 META = dict(
     title='invalid constructions are rejected',
     level_text=('Bounded symbolic model checking of the real constructors, builders and helpers on invalid-input families: the defect size is a solver variable '
